@@ -7,7 +7,11 @@ from . import common as C
 from . import schemarun as R
 from . import simplerun as Q
 
-PATTERNS = ["a", "a+", "^a$", "(a)", "(", "[", "^[a-z]+$", "\\d+", "日", "", "b$", "a|b", "^x-", "(?i)A", "a{2}", "*"]
+PATTERNS = ["a", "a+", "^a$", "(a)", "(", "[", "^[a-z]+$", "\\d+", "日", "", "b$", "a|b", "^x-", "(?i)A", "a{2}", "*",
+            "^[z-a]+$", "a{2,1}", "(?P<n>a)(?P<n>b)", "[[:foo:]]", "^id-[9-0]*$", "x**", "a\\8"]
+# invalid patterns and the part of them the parser names in its error: other (mostly valid) expressions
+FRAGMENTS = {"^[z-a]+$": ["z-a"], "a{2,1}": ["{2,1}"], "(?P<n>a)(?P<n>b)": ["n"], "[[:foo:]]": ["[:foo:]"], "^id-[9-0]*$": ["9-0"],
+             "x**": ["**"], "a\\8": ["\\8"], "(": ["("], "[": ["["], "*": ["*"]}
 STRINGS = ["", "a", "aa", "ab", "b", "7", "日本", "x", "x-1", "A", "a ", " a", "a\t", "b ", "x- ", "aa "]
 SPECS = ["fixtures/validation/valid-ref.json", "fixtures/validation/fixture-161-good.json", "fixtures/validation/fixture-43.json", "fixtures/validation/duplicateprops.json", "fixtures/validation/fixture-1243-5.json"]
 
@@ -38,6 +42,14 @@ def rexp_cases(seed, n, concurrent):
         for p0 in list(pats):
             if rng.random() < 0.5:
                 pats.append(rng.choice([p0 + " ", " " + p0, p0 + "\t", p0.upper(), p0.lower(), p0 + p0, p0 + "$", "^" + p0]))
+        # parts of the chosen patterns (what a parser error quotes, or any other slice of the text): expressions of their own
+        for p0 in list(pats):
+            for f in FRAGMENTS.get(p0, []):
+                if rng.random() < 0.7:
+                    pats.append(f)
+            if len(p0) > 2 and rng.random() < 0.3:
+                a = rng.randrange(len(p0) - 1)
+                pats.append(p0[a:rng.randint(a + 1, len(p0))])
         ops = [{"via": rng.choice(["Pattern", "Pattern", "schema", "patprops"]), "p": rng.choice(pats), "s": rng.choice(STRINGS)}
                for _ in range(rng.randint(5, 60))]
         c = {"id": i, "ops": ops}
